@@ -32,6 +32,7 @@ class C12(scen.WorldProp):
                 "Wheatley.C12.fixed_point",
                 "Wheatley.C12.memory_bounded",
                 "Wheatley.C12.forgets_oldest",
+                "Wheatley.C12.look_to_forgets_data",
                 "Wheatley.C12.centred_evaluation_is_the_same_fit",
                 "Wheatley.det_pos",
                 "Wheatley.regress_eq"]
